@@ -87,6 +87,29 @@ Proof.
   vm_compute. repeat split; reflexivity.
 Qed.
 
+(* tables of a CFF file without a post table whose top DICT has
+   UnderlinePosition 1.5 *)
+Definition ex_tables_cff_underline : tables :=
+  mkTables true
+    (Some (mkHead 65536 1000 (Some 1700000000) (Some 1700000000) false false))
+    (Some (mkHmtx 800 (-200) 100 0 (Some [500; 600; 0])))
+    (Some (3%N, None))
+    (Some (mkOs2 400 5 false false true false 800 (-200) 100 700 500 0 1 0))
+    (Some ex_cmap)
+    (Some (mkNames (Some (mkName (S [84;101;115;116]) (S [82;101;103;117;108;97;114]) [] [] [] [] [] [] None [] (S [86;101;114;115;105;111;110;32;49;46;48;48;48]) [] [])) 3 None 0))
+    None
+    (Some (mkCffInfo [] [] (S [84;101;115;116]) [] [] [] [] 0 98304 (-65536) false false 1000))
+    ex_outl_cff None (Some 2%N) None None.
+
+Example underline_refuted :
+  exists f0, M_read_merge ex_tables_cff_underline = Ok f0 /\ tables_decoded ex_tables_cff_underline = true
+             /\ bold_settled f0 = true /\ in_range f0 = true
+             /\ f_upos f0 = 98304 /\ f_upos (normalize f0) = 131072.
+Proof.
+  exists (match M_read_merge ex_tables_cff_underline with Ok f => f | _ => ex_font end).
+  vm_compute. repeat split; reflexivity.
+Qed.
+
 (* a timestamp at the origin of the head clock does not come back *)
 Example timestamp_1904_refuted :
   let f := mkFont (S [84]) 5 400 true false false false false false 0 65536 None (Some (-2082844800))
